@@ -480,10 +480,22 @@ Fixpoint setup_rows (store : list (bytes * list bytes)) (st : mst) (rows : list 
   | r :: rest => do st1 <- setup_row store st r; setup_rows store st1 rest
   end.
 
+(* TorConfig() + assignments + attach_protocol(): without a protocol nothing is validated (_accept_all_),
+   every list is wrapped, the value goes to `unsaved` under the spelling used (parsers and config are empty,
+   so _find_real_name returns the name as given; a second assignment to the same name replaces the first);
+   attach_protocol() first calls save(), which without a protocol moves every entry of `unsaved` into
+   `config` as it is and empties `unsaved`; then _accept_all_ is deleted and bootstrap runs.
+   So the attachment starts from this `config`: *)
+Definition pre_config (pre : option (list (bytes * pyval))) : list (bytes * cval) :=
+  match pre with
+  | None => []
+  | Some l => fold_left (fun c (p : bytes * pyval) => dset (fst p) (cval_of_pyval true (snd p)) c) l []
+  end.
+
 Definition m_bootstrap (i : cfg_input) : res mst :=
   let defaults := match i_defaults i with None => [] | Some ls => fold_left add_default ls [] end in
   let st0 := {| m_parsers := []; m_listp := [bs "hiddenservices"; bs "ephemeralonionservices"];
-                m_defaults := defaults; m_config := []; m_unsaved := [] |} in
+                m_defaults := defaults; m_config := pre_config (i_pre i); m_unsaved := [] |} in
   do st1 <- setup_rows (i_store i) st0 (i_table i);
   let st2 := set_config st1 (bs "EphemeralOnionServices") (CList false []) in
   Ok (set_config st2 (bs "DetachedOnionServices") (CList false [])).
@@ -639,6 +651,7 @@ Fixpoint socks_lines (lines : list atom) : option sockres :=
       | LRaise k => Some (SockExc k)
       | LOos => None
       end
+  | AInt _ :: _ => Some (SockExc E_Attribute)         (* line.split() on an int *)
   | _ :: _ => None
   end.
 
